@@ -63,6 +63,7 @@ type Enc struct {
 	mapPair        map[string]*mapPairInfo // MD or MV heap name -> pair
 	entryAlloc     bool // alloc!0 exists: entry-state closure axioms are emitted
 	lockDiscipline bool
+	callPolicy     string // "" (contracts + inlining) | "shallow" (contracts; other module calls skipped) | "lock"
 }
 
 func newEnc(prog *ssa.Program, specs *SpecDB) *Enc {
@@ -113,6 +114,8 @@ const preludeBase = `(set-option :produce-models true)
 (define-fun nil_slice () Slice (mk_slice 0 0 0 0))
 (define-fun nil_iface () Iface (mk_iface 0 0))
 (define-fun slice_ok ((s Slice)) Bool (and (>= (s_arr s) 0) (>= (s_off s) 0) (>= (s_len s) 0) (>= (s_cap s) (s_len s)) (=> (= (s_arr s) 0) (= s nil_slice))))
+(declare-fun sidx (Int Int) Int)
+(assert (forall ((o Int) (j Int)) (! (= (sidx o j) (+ o j)) :pattern ((sidx o j)) :qid sidx_def)))
 (define-fun iface_ok ((i Iface)) Bool (and (>= (i_tag i) 0) (=> (= (i_tag i) 0) (= (i_val i) 0))))
 `
 
